@@ -9,7 +9,7 @@ from sa.core import AnalysisError, Report, loc, norm_src, VERIF
 from sa.consteval import ev
 from sa.kernels import Extractor, IN, CONST, normal, show, Unsupported, lift, is_term
 from sa.paths import dotted, calls_in, call_name
-from sa.numconst import BITS, PREC, EMAX, dtype_switch
+from sa.numconst import local_env, eval_for_format, BITS, PREC, EMAX, dtype_switch
 
 FPA = "floating_point_algorithms.py"
 ALG = "algorithms.py"
@@ -37,6 +37,15 @@ def nf(v):
     if not is_term(v) and isinstance(v, (tuple, list)):
         return tuple(nf(x) for x in v)
     return normal(lift(v))
+
+
+def _owner_function(node):
+    n = node
+    while n is not None and not isinstance(n, (ast.FunctionDef, ast.AsyncFunctionDef)):
+        n = getattr(n, "_parent", None)
+    if n is None:
+        raise AnalysisError("expression outside any function")
+    return n
 
 
 def run(repo, tier):
@@ -168,6 +177,8 @@ def run(repo, tier):
     check_mul_dekker_overflow(r, repo, ex, ref, "R10.1")
 
     # ------------------------------------------------------------------ R10.2 constants
+    from sa.numconst import check_getters
+    check_getters(r, repo, "R10.2")
     want_C = {b: 2 ** ((PREC[b] + 1) // 2) + 1 for b in BITS}
     want_N = {b: 2 ** ((PREC[b] + 1) // 2) for b in BITS}
     # algorithms.get_veltkamp_splitter_constant
@@ -222,30 +233,27 @@ def run(repo, tier):
             if nm not in fm:
                 raise AnalysisError(f"{rel}::{fname}: formula for {nm} not found")
             for b in BITS:
-                val = ev(strip_dtype(fm[nm]), {"p": PREC[b], "maxexp": EMAX[b] + 1})
-                r.ob("R10.2", f"{rel}::{fname} {nm} float{b}", val == fn(b), f"`{norm_src(fm[nm])}` with p={PREC[b]}, maxexp={EMAX[b] + 1} gives {val}; expected {fn(b)}", loc(rel, fm[nm]))
+                owner = _owner_function(fm[nm])
+                outer = repo.func(rel, fname)
+                env = local_env(owner, b, scopes=[outer] if owner is not outer else None)
+                val = eval_for_format(fm[nm], b, owner, env)
+                r.ob("R10.2", f"{rel}::{fname} {nm} float{b}", val == fn(b), f"`{norm_src(fm[nm])}` for float{b} (p={PREC[b]}, maxexp={EMAX[b] + 1}) gives {val}; expected {fn(b)}", loc(rel, fm[nm]))
     # utils.get_veltkamp_splitter_constant: s = (p+1)//2 ; x(2**s + 1)
     u = repo.func(UT, "get_veltkamp_splitter_constant")
-    env = {}
-    for st in u.body:
-        if isinstance(st, ast.Assign) and isinstance(st.targets[0], ast.Name):
-            env[st.targets[0].id] = st.value
     ret = [n for n in ast.walk(u) if isinstance(n, ast.Return)][0].value
     arg = ret.args[0] if isinstance(ret, ast.Call) and ret.args else ret
     for b in BITS:
-        s = ev(env["s"], {"p": PREC[b]}) if "s" in env else None
-        val = ev(arg, {"s": s, "p": PREC[b]})
-        r.ob("R10.2", f"{UT}::get_veltkamp_splitter_constant float{b}", val == want_C[b], f"gives {val}, expected {want_C[b]}", loc(UT, u))
-    # utils.split_veltkamp default: s = (p+1)//2, C = 2**s + 1
+        val = eval_for_format(arg, b, u, local_env(u, b))
+        r.ob("R10.2", f"{UT}::get_veltkamp_splitter_constant float{b}", val == want_C[b], f"`{norm_src(arg)}` gives {val}, expected {want_C[b]}", loc(UT, u))
+    # utils.split_veltkamp default: the value bound to the splitter parameter C when it is None
     sv = repo.func(UT, "split_veltkamp")
-    senv = {}
-    for n in ast.walk(sv):
-        if isinstance(n, ast.Assign) and isinstance(n.targets[0], ast.Name) and n.targets[0].id in ("s", "C"):
-            senv[n.targets[0].id] = n.value
+    cdefs = [n for n in ast.walk(sv) if isinstance(n, ast.Assign) and len(n.targets) == 1 and dotted(n.targets[0]) == "C"]
+    if len(cdefs) != 1:
+        raise AnalysisError(f"utils.split_veltkamp: expected one default assignment of the parameter C, found {len(cdefs)}")
+    cnode = cdefs[0].value
+    cexpr = cnode.args[0] if isinstance(cnode, ast.Call) and cnode.args and not (dotted(cnode.func) or "").endswith("get_veltkamp_splitter_constant") else cnode
     for b in BITS:
-        s = ev(senv["s"], {"p": PREC[b]})
-        cnode = senv["C"]
-        cval = ev(cnode.args[0] if isinstance(cnode, ast.Call) and cnode.args else cnode, {"s": s})
+        cval = eval_for_format(cexpr, b, sv, local_env(sv, b))
         r.ob("R10.2", f"{UT}::split_veltkamp default splitter float{b}", cval == want_C[b], f"default C = {cval}, expected {want_C[b]}", loc(UT, sv))
 
     # ------------------------------------------------------------------ R10.3 wrappers
@@ -281,11 +289,9 @@ def check_mul_dekker_overflow(r, repo, ex, ref, rule):
         raise AnalysisError(f"{FPA}::mul_dekker(fix_overflow=True): kernel shape not understood: {e}")
     vx, vy = ref.call("", "veltkamp", [x, C]), ref.call("", "veltkamp", [y, C])
     want = ref.call("", "dekker_product_fix_overflow", [ctx, x, y, vx[0], vx[1], vy[0], vy[1]])
+    want_alt = ref.call("", "dekker_product_fix_overflow_alt", [ctx, x, y, vx[0], vx[1], vy[0], vy[1]])
     g, w = nf(got), nf(want)
-    ok = g == w
-    # the two cross terms may be swapped
-    if not ok:
-        pass
+    ok = g == w or g == nf(want_alt)  # the two cross terms may be accumulated in either order
     r.ob(rule, f"{FPA}::mul_dekker fix_overflow=True", ok,
          f"with fix_overflow the kernel computes {_show_result(got)[:400]}; the guarded proven form is {_show_result(want)[:400]} "
          "(the guard must test |xh*yh| > largest so that products overflowing towards -inf also fall back to (x*y, 0))", loc(FPA, f_md))
